@@ -204,7 +204,9 @@ def run(chk):
     BAD_INC = ["nosuch.conf", "foo:bar", "mailto:x", "c.co:nf", "http://[", "file:///nonexistent/zcv/x.conf", "sub/",
                "#frag", "a.conf#frag", "file://otherhost.invalid/x", "//x/y", "\\\\server\\share", "x y.conf", "%41.conf",
                "file:", "file:///", ":", "a:", "1:2", "a\x00b.conf", "file:///a\x00b", "\x7f", "é ü.conf", "ftp://",
-               "http://", "http:", "data:;base64,%%%", "data:", "?", "??x=1", "c:/x.conf", "file://%zz/x"]
+               "http://", "http:", "data:;base64,%%%", "data:", "?", "??x=1", "c:/x.conf", "file://%zz/x",
+               "package:", "package:x", "package:nosuchpkg_zcv:f.conf", "package::f.conf", "package:os:nosuch.conf",
+               "package:os.path:x", "package:zcv:nosuch.conf", "PACKAGE:x:y"]
     for arg in BAD_INC:
         for where in (0, 1):
             files = {"d/main.conf": ["# main", "%include " + arg] if where == 0 else ["%include inner.conf"],
